@@ -9,9 +9,9 @@ Core(hs) == [i \in 1..Len(hs) |-> [ty |-> hs[i].ty, val |-> hs[i].val, s |-> hs[
 Expected == SearcherHits(T.label, T.kws, T.data)
 Clauses ==
   (IF T.failed # <<>> THEN {"raised"} ELSE {})
-  \cup (IF T.failed = <<>> /\ Core(T.hits) # Expected THEN
-          (IF [i \in 1..Len(T.hits) |-> <<T.hits[i].val, T.hits[i].s, T.hits[i].e>>]
-              # [i \in 1..Len(Expected) |-> <<Expected[i].val, Expected[i].s, Expected[i].e>>]
+  \cup (IF T.failed = <<>> /\ ~(Len(T.hits) = Len(Expected) /\ ToSet(Core(T.hits)) = ToSet(Expected)) THEN      \* (the order among keywords is C09's business)
+          (IF {<<T.hits[i].val, T.hits[i].s, T.hits[i].e>> : i \in 1..Len(T.hits)}
+              # {<<Expected[i].val, Expected[i].s, Expected[i].e>> : i \in 1..Len(Expected)} \/ Len(T.hits) # Len(Expected)
            THEN {"occurrences"} ELSE {"label"})
         ELSE {})
 Init == tid \in 1..Len(Traces) /\ judged = FALSE
